@@ -524,6 +524,29 @@ func CompletionShapes() []*prog.Program {
 	return out
 }
 
+// StartAtTheEdgeShapes: several start events, the flow of the first one is over before the next
+// start event is triggered (when StartAll is slow between two start events): "every start event
+// has fired" must not be concluded from the ones triggered so far.
+func StartAtTheEdgeShapes() []*prog.Program {
+	var out []*prog.Program
+	for k := 2; k <= 3; k++ {
+		b := prog.NewBuilder(fmt.Sprintf("starts%d_first_instant", k))
+		s0 := b.AddNode("start", "")
+		e0 := b.AddNode("end", "")
+		b.Connect(s0, e0, prog.Cond{})
+		for i := 1; i < k; i++ {
+			s := b.AddNode("start", "")
+			t := b.AddNode("task", "")
+			e := b.AddNode("end", "")
+			b.Connect(s, t, prog.Cond{})
+			b.Connect(t, e, prog.Cond{})
+		}
+		b.P.Tags = append(b.P.Tags, "multi-start", fmt.Sprintf("starts%d", k), "start-at-the-edge")
+		out = append(out, b.Done())
+	}
+	return out
+}
+
 // ForkAtTheEdgeShapes: the token that forks is consumed at the very moment the flows it forked
 // come into being -- the instant at which "no token remains" must not be concluded.
 func ForkAtTheEdgeShapes() []*prog.Program {
